@@ -12,6 +12,8 @@ S (search, independent of the model)  on the *implementation's* output: `chk_equ
    quantifiers are evaluated exactly, Int quantifiers over small finite domains) and the advertised shape predicate
    (`shape nnf|aig|prenex|qf|notand|notor <term>` of the C10 driver evaluated on the implementation's output).
    An exception on an input of the procedure's fragment is a violation as well.
+Shrinking  the first failing input of every new signature is replaced by its smallest Boolean sub-formula that
+   still fails with the same (procedure, oracle) -- one batched round, so that replays stay readable.
 """
 import itertools
 import warnings
@@ -40,7 +42,10 @@ ASSUMPTIONS = [
     "Lean theorems quantify over all interpretations",
     "interpretations under which a division by zero is evaluated are skipped",
     "propagate_toplevel: K compares do_simplify=False (the simplifier is the subject of C01); S checks both settings",
-    "prenex: fresh names are compared up to a bijection; shared sub-DAGs are walked as trees by the model",
+    "prenex: fresh names are compared up to a bijection (all bijections for <= 6 fresh names, otherwise with the "
+    "fresh names collapsed); shared sub-DAGs are walked as trees by the model",
+    "the models describe the repaired code (F18, F19, F19b, F50, F52); F51 (capture in propagate_toplevel) is a "
+    "known finding",
     "quantified variable lists are duplicate-free",
 ]
 
@@ -820,6 +825,66 @@ def process(ctx, env, cases, record=True):
     return nfail
 
 
+def bool_subterms(env, f, limit=60):
+    """Boolean-typed proper sub-formulas of f, smallest first"""
+    out, seen, stack = [], set(), list(f.args())
+    get_type = env.stc.get_type
+    while stack:
+        n = stack.pop()
+        if n.node_id() in seen:
+            continue
+        seen.add(n.node_id())
+        try:
+            if get_type(n).is_bool_type() and not n.is_symbol() and not n.is_constant():
+                out.append(n)
+        except Exception:
+            pass
+        stack.extend(n.args())
+    out.sort(key=lambda n: len(wire.enc_term(n)))
+    return out[:limit]
+
+
+def shrink(ctx, env):
+    """one batched round: replace each distinct new S failure by the smallest Boolean sub-formula that fails the
+    same way (same procedure and oracle)"""
+    import json as _json
+    known = [e for e in common.load_known() if e.get("property") == ctx.prop]
+    firsts = {}
+    for v in ctx.s_violations:
+        if common.match_known(v["sig"], known) is not None or "term" not in v["replay"]:
+            continue
+        key = _json.dumps(v["sig"], sort_keys=True)
+        if key not in firsts and len(firsts) < 5:
+            firsts[key] = v
+    cands = []
+    for key, v in firsts.items():
+        proc = v["replay"]["proc"]
+        if proc not in PROCS or proc == "propagate":
+            continue
+        try:
+            f = build_fnode(env, wire.dec_term(v["replay"]["term"]))
+        except Exception:
+            continue
+        for sub in bool_subterms(env, f):
+            cands.append((key, proc, sub))
+    if not cands or ctx.time_left() < 30:
+        return
+    scratch = common.Ctx(ctx.prop, ctx.tier, ctx.seed)
+    scratch.rng = ctx.rng
+    process(scratch, env, [(proc, sub) for key, proc, sub in cands])
+    for key, v in firsts.items():
+        best = None
+        for w in scratch.s_violations:
+            if w["sig"].get("proc") == v["sig"].get("proc") and w["sig"].get("oracle") == v["sig"].get("oracle") \
+                    and w["sig"].get("shape") == v["sig"].get("shape"):
+                if best is None or len(w["replay"]["term"]) < len(best["replay"]["term"]):
+                    best = w
+        if best is not None and len(best["replay"]["term"]) < len(v["replay"]["term"]):
+            v["what"] = best["what"] + "   [shrunk from: " + v["replay"]["formula"][:200] + "]"
+            v["replay"] = dict(best["replay"], shrunk_from=v["replay"]["term"])
+            ctx.count("shrunk")
+
+
 def probes(env):
     """fixed inputs: the shapes of the findings F18/F19 and relatives, always part of the run"""
     m = env.formula_manager
@@ -864,6 +929,11 @@ def run(ctx):
             ctx.extra["stopped_early_at"] = i
             break
         process(ctx, env, cases[i:i + chunk])
+    if ctx.s_violations:
+        try:
+            shrink(ctx, env)
+        except Exception as e:       # shrinking must never hide a failure
+            ctx.count("shrink_failed_%s" % type(e).__name__)
 
 
 def replay(ctx, rep):
